@@ -335,7 +335,7 @@ class Evaluator:
             name = fname[3:]
             if name in ("zeros", "ones", "empty", "full") and args:
                 shp = self.np_shape_arg(args[0], env)
-                init = ("zeros",) if name == "zeros" else ("const", 1) if name == "ones" else None
+                init = ("zeros",) if name == "zeros" else ("const", 1) if name == "ones" else ("uninit",) if name == "empty" else None
                 if name == "full" and (len(args) > 1 or "fill_value" in kw):
                     fv = args[1] if len(args) > 1 else kw["fill_value"]
                     c = const_value(fv)
@@ -345,7 +345,7 @@ class Evaluator:
                 return Val(shape=shp, init=init, fresh=True, desc=f"np.{name}(..)")
             if name in ("zeros_like", "ones_like", "empty_like") and args:
                 v = self.ev(args[0], env)
-                init = ("zeros",) if name == "zeros_like" else ("const", 1) if name == "ones_like" else None
+                init = ("zeros",) if name == "zeros_like" else ("const", 1) if name == "ones_like" else ("uninit",)
                 r = Val(shape=v.shape, init=init, fresh=True, desc=f"np.{name}({v.desc})")
                 r.lensym = v.lensym
                 r.cval = ("likeof", v)
@@ -505,7 +505,38 @@ class Evaluator:
                     env.vars["@facts"] = list(env.vars["@facts"]) + [d]
 
     # ---- statements ------------------------------------------------------
+    def _weak_disjunction(self, test, env):
+        """`if A and B: raise` passes when A alone is false: nothing follows from passing it, yet every conjunct is understood (assuming it false
+        on its own teaches something) - the guard is weak, not opaque"""
+        neg = False
+        while isinstance(test, ast.UnaryOp) and isinstance(test.op, ast.Not):
+            test, neg = test.operand, not neg
+        if not (isinstance(test, ast.BoolOp) and isinstance(test.op, ast.Or if neg else ast.And)):
+            return False
+        for v in test.values:
+            e_ = env.copy()
+            f0 = self._fingerprint(e_)
+            try:
+                self.assume(v, neg, e_)
+            except Exception:        # noqa
+                return False
+            if self._fingerprint(e_) == f0:
+                return False
+        return True
+
+    @staticmethod
+    def _fingerprint(env):
+        shp = []
+        for k_, v in env.vars.items():
+            if not k_.startswith("@") and hasattr(v, "shape"):
+                shp.append((k_, repr(v.shape)))
+        return (repr(sorted((k_, repr(v)) for k_, v in env.eq.items())), repr(sorted(env.lb.items())), len(env.vars.get("@facts", [])), repr(sorted(shp)))
+
     def bind(self, tgt, val, env):
+        if isinstance(tgt, (ast.Tuple, ast.List)) and isinstance(val.cval, tuple) and val.cval and val.cval[0] == "shapeof":
+            # names unpacked from a shape tuple (including a starred rest): guards on them are guards on the shape
+            nms = [n.id for t in tgt.elts for n in ast.walk(t) if isinstance(n, ast.Name)]
+            env.vars["@shape_names"] = tuple(env.vars.get("@shape_names", ())) + tuple(nms)
         if isinstance(tgt, ast.Name):
             env.vars[tgt.id] = val
         elif isinstance(tgt, (ast.Tuple, ast.List)):
@@ -594,7 +625,16 @@ class Evaluator:
             self.ev(s.test, env)
             e1, e2 = env.copy(), env.copy()
             self.assume(s.test, True, e1)
+            fp0 = self._fingerprint(e2)
             self.assume(s.test, False, e2)
+            if s.body and isinstance(s.body[-1], ast.Raise) and not s.orelse and self._fingerprint(e2) == fp0 and not self._weak_disjunction(s.test, env):
+                # a raising guard this reader learnt nothing from: if it talks about shapes / sizes, an obligation that cannot be
+                # established afterwards is undecided rather than refuted (the guard may be what establishes it)
+                names = {n.id for n in ast.walk(s.test) if isinstance(n, ast.Name)}
+                txt = ast.unparse(s.test)
+                shapey = any(k_ in txt for k_ in (".shape", ".ndim", "len(", ".size")) or any(nm in env.vars.get("@shape_names", ()) for nm in names)
+                if shapey:
+                    e2.vars["@opaque_guards"] = list(e2.vars.get("@opaque_guards", [])) + [txt[:80]]
             e1 = self.run(s.body, e1)
             e2 = self.run(s.orelse, e2)
             return join_env(e1, e2)
